@@ -54,9 +54,9 @@ LAYOUTS = ["", "g", "r", "gg", "gr", "rg", "rr"]
 
 def c10_default(layout: int, dyn: bool, qtype: int, c0: int, c1: int) -> bool:
     """
-    pre: 97 <= c0 <= 122 and 97 <= c1 <= 122
-    pre: 0 <= qtype <= 2
-    post: _ == True
+    vpre: 97 <= c0 <= 122 and 97 <= c1 <= 122
+    vpre: 0 <= qtype <= 2
+    vpost: _ == True
     """
     kinds = LAYOUTS[layout]
     d = S(c0, c1) + ("()" if dyn else "")
@@ -126,8 +126,8 @@ specialise(
 
 def c10_trigger(ctype: int, order: bool, in_group: bool, c0: int, c1: int) -> bool:
     """
-    pre: (48 <= c0 <= 57 or 97 <= c0 <= 122) and (48 <= c1 <= 57 or 97 <= c1 <= 122)
-    post: _ == True
+    vpre: (48 <= c0 <= 57 or 97 <= c0 <= 122) and (48 <= c1 <= 57 or 97 <= c1 <= 122)
+    vpost: _ == True
     """
     calc = S(c0, c1)
     T = {"type": "text", "name": "t", "label": "T"}
